@@ -52,6 +52,14 @@ def _install_reference_methods():
     R.isColor = lambda self, c: (self._o.nTrk % 3) == c
     R.t_color = lambda self: self._o.nTrk % 3
     R.t_float_as_double = lambda self: self._o.q
+    class _RPair:
+        def __init__(self, o):
+            self.first, self.second = 1.5, 2.5 + o.nTrk
+
+        def nBins(self): return 7
+        def width(self): return self.second - self.first
+    R.range = lambda self: _RPair(self._o)
+    R.link2 = lambda self: _RPair(self._o)
     R.dm_int = property(lambda self: self._o.nTrk + 10)
     R.dm_double = property(lambda self: self._o.pt * 2 + 1)
 
@@ -228,6 +236,23 @@ def build(backend, tier):
         mdd = [mti("Root", "a", return_type="W1" + "*" * k1)] + ([mti("W1", "dm_double", return_type="double", **kw)] if d is not None else [])
         add(f"member:double:k{k1}:d{d}", "j.a().dm_double", mdd, pre, col_types={"double"}, want_warning="dm_double" if d is None else None)
         add(f"member:with-method:k{k1}:d{d}", "(j.a().dm_int, j.a().t_int())", md + term_md("W1", "t_int", d), pre)
+    # ---- class-template types spelled the usual C++ way, with blanks next to < > and , - in return_type and type_string alike
+    tpre = ("template <class A, class B> struct TPair { A first; B second; int nBins() const { return 7; } double width() const { return second - first; } };\n"
+            "template <class T> struct TLink { const T* p; const T* operator->() const { return p; } const T& operator*() const { return *p; } };\n")
+    for spelled in ("TPair<float, float>", "TPair<float,float>", "TPair< float, float >"):
+        extra = f"  TPair<float, float> range() const {{ return TPair<float, float>{{1.5f, 2.5f + d_->nTrk}}; }}"
+        pre = gen_prelude(backend, [], root_extra=extra, pre=tpre)
+        md = [mti("Root", "range", return_type=spelled), mti(spelled, "nBins", return_type="int"), mti(spelled, "first", return_type="float"), mti(spelled, "width", return_type="double")]
+        add(f"template-blanks:method:{spelled}", "j.range().nBins()", md, pre, col_types={"int"})
+        add(f"template-blanks:member:{spelled}", "j.range().first", md, pre, col_types={"float"})
+        add(f"template-blanks:arith:{spelled}", "(j.range().width() + j.range().nBins())", md, pre, col_types={"double"})
+    for spelled in ("TLink<TPair<float, float> >", "TLink<TPair<float, float>>"):
+        extra = ("  TPair<float, float> vm_pair; TLink<TPair<float, float> > link2() const { return TLink<TPair<float, float> >{&vm_pair}; }\n"
+                 "  void vm_fix_more() { vm_pair = TPair<float, float>{1.5f, 2.5f + d_->nTrk}; }")
+        pre = gen_prelude(backend, [], root_extra=extra, pre=tpre)
+        md = [mti("Root", "link2", return_type=spelled), mti(spelled, "nBins", return_type="int", deref_count=1), mti(spelled, "width", return_type="double", deref_count=1)]
+        add(f"template-blanks:deref:{spelled}", "j.link2().nBins()", md, pre, col_types={"int"})
+        add(f"template-blanks:deref-double:{spelled}", "j.link2().width()", md, pre, col_types={"double"})
     # const in front of a type whose NAME starts with one of the letters of "const" (and a namespace-qualified one)
     for alias, k1 in itertools.product(("tW1", "sW1", "cW1", "oW1", "nW1", "ns::tW1"), (0, 1)):
         links = [{"name": "a", "k": k1, "wrap": 0}]
